@@ -246,10 +246,10 @@ func (s SqlBuilder) parseStruct(tableName, prefix string, obj interface{}) ([]st
 			case strings.HasPrefix(normTag, prefixForeignKey):
 				if at.ForeignKey == nil {
 					at.ForeignKey = &fkAttrs{
-						Table:     tableName,
-						RefColumn: trimPrefix(ot, prefixForeignKey),
+						Table: tableName,
 					}
 				}
+				at.ForeignKey.RefColumn = trimPrefix(ot, prefixForeignKey)
 
 				objectNames := strings.Split(field.Type.String(), ".")
 				obName := objectNames[len(objectNames)-1]
